@@ -33,9 +33,9 @@ ASSUMPTIONS = [
     "join: only the outer (receiver) side is claimed to stream; 'member projection' is collection.key on dict elements",
 ]
 BOUNDS = {
-    'quick': 'pipelines of <= 2 instances from all 26 streaming + 8 search instances, of 3 from a 14-instance core (+ searches); '
+    'quick': 'pipelines of <= 2 instances from all 27 streaming + 8 search instances, of 3 from a 14-instance core (+ searches); '
              'sources 1,2,3,... and cyclic (1,null,2,2,3); k in {0,1,2,3} x {unfinalised iterator, take(k)} + first()',
-    'thorough': 'pipelines of <= 3 instances from all 26 + 8, of 4 from the 14-instance core with k in {0,1,2,3} on the '
+    'thorough': 'pipelines of <= 3 instances from all 27 + 8, of 4 from the 14-instance core with k in {0,1,2,3} on the '
                 'unfinalised iterator only; same sources',
 }
 MODEL_LIMIT = 40
@@ -53,8 +53,9 @@ SOURCES = {
 
 
 class Op(object):
-    def __init__(self, text, fn, lams, model, search=False, core=False):
+    def __init__(self, text, fn, lams, model, search=False, core=False, ticks=False):
         self.text, self.fn, self.lams, self.model, self.search, self.core = text, fn, lams, model, search, core
+        self.ticks = ticks            # the model needs the tick counter itself (a lambda applied inside a lambda)
 
     def yaql(self):
         return self.text.format(*['tick(1, %s)' % t for t in self.lams])
@@ -70,6 +71,8 @@ OPS = [
     Op('where({0})', 'where', ['$ > 1'], S.where, core=True),
     Op('where({0})', 'where', ['$ = null'], S.where),
     Op('selectMany({0})', 'select_many', ['[$, $]'], S.select_many, core=True),
+    Op('selectMany(tick(1, [$, $, $].select(tick(1, $))))', 'select_many', [],     # a lazy inner collection
+       lambda s, ticks: S.select_many(s, ticks.wrap(lambda x: (ticks.wrap(lambda y: y)(y) for y in [x, x, x]))), ticks=True),
     Op('skip(2)', 'skip', [], lambda s: S.skip(s, 2), core=True),
     Op('take(2)', 'limit', [], lambda s: S.take(s, 2), core=True),
     Op('takeWhile({0})', 'take_while', ['$'], S.take_while, core=True),
@@ -148,7 +151,7 @@ def run_model(ops, source, k, way):
     try:
         stream = src
         for o in ops:
-            stream = o.model(stream, *[ticks.wrap(LAMBDAS[t]) for t in o.lams])
+            stream = o.model(stream, *[ticks.wrap(LAMBDAS[t]) for t in o.lams], **({'ticks': ticks} if o.ticks else {}))
         if way == 'first':
             value = S.first(stream)
         elif way != 'search':
@@ -262,7 +265,7 @@ def job(tier, j, njobs):
                 if status.startswith('values differ'):
                     # consumption was within the bound; what the results are is judged by C13, here only reported
                     res.outcomes['results differ from the stream model (C13 matter)'] += 1
-                    if len(res.notes) < 2:
+                    if j == 0 and not res.notes:
                         res.notes.append('%s on %s: %s' % (text, source, status[:160]))
                     continue
                 res.nontrivial += 1
